@@ -448,4 +448,22 @@ open Polynomial in
 example : ∃ d : Der ℚ[X], d.D X = 1 ∧ ∀ a : ℚ, d.D (C a) = 0 := ⟨polyDer, by simp [polyDer], by simp [polyDer]⟩
 example : ∃ G : Fam ℚ, G.p0 = 1 := ⟨heFam, by simp⟩
 
+/-- the hypotheses of `q2d_radial_slope` are met in `ℚ[X]` with `d/dX`: the two numerical constants of the read-out are
+`D`-constants, `u = X`, any family / coefficient lists / `cos`, `sin` values lifted from `ℚ` -/
+theorem q2d_slope_hypotheses_hold :
+    (polyDer (F := ℚ)).D (Num.ofFrac 1 2 : Polynomial ℚ) = 0 ∧ (polyDer (F := ℚ)).D (Num.ofFrac 2 5 : Polynomial ℚ) = 0 ∧
+    (polyDer (F := ℚ)).D Polynomial.X = 1 ∧ ∀ a : ℚ, (polyDer (F := ℚ)).D (Polynomial.C a) = 0 := by
+  have key : ∀ (p : ℤ) (q : ℕ), (Num.ofFrac p q : Polynomial ℚ) = Polynomial.C ((p : ℚ) / (q : ℚ)) := by
+    intro p q
+    simp only [Num.ofFrac, ofInt_eq]
+    have h2 : (((q : ℤ) : Polynomial ℚ)) = Polynomial.C (q : ℚ) := by simp
+    have h1 : ((p : Polynomial ℚ)) = Polynomial.C (p : ℚ) := by simp
+    rw [h1, h2, Polynomial.div_C, ← Polynomial.C_mul]
+    congr 1
+  refine ⟨?_, ?_, ?_, ?_⟩
+  · rw [key]; simp [polyDer]
+  · rw [key]; simp [polyDer]
+  · simp [polyDer]
+  · intro a; simp [polyDer]
+
 end C09
